@@ -613,7 +613,14 @@ def run(ctx):
 
 
 def replay(body):
-    sc = body.get("case", body)
+    if "case" in body:
+        sc = body["case"]
+    elif body.get("disagreements"):      # a stage-C replay file: re-run the first disagreeing scenario
+        sc = body["disagreements"][0]["case"]
+    elif "timeout" in body:
+        sc = body
+    else:
+        return {"violates": None, "note": "no scenario in this replay file (stage %s: %s)" % (body.get("stage"), body.get("broken"))}
     obs = run_scenario(sc)
     v = oracle(sc, obs)
     out = {"violates": bool(v), "violations": [{"sig": s, "what": w} for s, w in v], "result": obs["result"],
